@@ -462,9 +462,12 @@ func chunkUploader(ctx context.Context,
 	options *purgeOptions,
 ) func() error {
 	return func() error {
+		var attempts int
+
 		return backoff.Retry(func() error {
 			indexFile := model.ReverseIndexFile(chunkIndex)
-			dbReader := newDBReader(ctx, db, indexTime, logger, chunkSize)
+			dbReader := newChunkDBReader(ctx, db, indexTime, logger, chunkSize, chunkIndex, attempts > 0)
+			attempts++
 			defer func() {
 				_ = dbReader.Close()
 			}()
@@ -1048,15 +1051,26 @@ type dbReader struct {
 	logger    *zap.Logger
 	partial   []byte
 	maxKeys   uint64
+	marker    []byte // value set on the keys handed out for this chunk
+	isRetry   bool   // a previous attempt at this chunk has failed
 }
 
 func newDBReader(ctx context.Context, db kvStore, indexTime time.Time, logger *zap.Logger, maxKeys uint64) *dbReader {
+	return newChunkDBReader(ctx, db, indexTime, logger, maxKeys, 0, false)
+}
+
+// newChunkDBReader builds a reader that feeds the upload of some index chunk
+func newChunkDBReader(ctx context.Context, db kvStore, indexTime time.Time, logger *zap.Logger, maxKeys uint64, chunkIndex uint64, isRetry bool) *dbReader {
 	r := &dbReader{
 		db:        db,
 		indexTime: indexTime,
 		out:       make(chan []byte, 1024),
 		logger:    logger,
 		maxKeys:   maxKeys,
+		// keys are marked with the chunk they are written to: when the upload of a chunk fails and is retried,
+		// the keys already consumed by the failed attempt are sent again
+		marker:  []byte(fmt.Sprintf("X%d", chunkIndex)),
+		isRetry: isRetry,
 	}
 
 	g, gctx := errgroup.WithContext(ctx)
@@ -1090,16 +1104,24 @@ func (r *dbReader) iterateKV(ctx context.Context, db kvStore) func() error {
 				return fmt.Errorf("failed to fetch KV value [%s]: %w", key, err)
 			}
 
-			if len(val) > 0 {
+			switch {
+			case len(val) == 0:
+				iterated++
+				if iterated > r.maxKeys {
+					if !r.isRetry {
+						return nil
+					}
+
+					// keep scanning for keys left over by a failed attempt at this chunk
+					continue
+				}
+			case bytes.Equal(val, r.marker):
+				// consumed by a failed attempt to upload this very chunk: send again
+			default:
 				// key has been marked as already uploaded: skip
 				skipped++
 
 				continue
-			}
-
-			iterated++
-			if iterated > r.maxKeys {
-				return nil
 			}
 
 			select {
@@ -1152,7 +1174,7 @@ func (r *dbReader) Read(p []byte) (int, error) {
 			b = append(b, '\n') // add newline to separate keys
 
 			// mark key as read in the DB
-			if err := r.db.Set(key, []byte("X")); err != nil {
+			if err := r.db.Set(key, r.marker); err != nil {
 				return 0, fmt.Errorf("failed to mark KV key as read: %w", err)
 			}
 
